@@ -117,7 +117,7 @@ func main() {
 			stat["h2"]++
 		}
 		stat["field:"+p.String()[:min(6, len(p.String()))]]++
-		fmt.Printf("%s\t=>\t%s\n", line, res)
+		fmt.Fprintf(gen.Out, "%s\t=>\t%s\n", line, res)
 	}
 	fmt.Fprintf(os.Stderr, "{")
 	first := true
